@@ -213,10 +213,11 @@ def run(n, seed):
         for op in jb["ops"]:
             if op["op"] == "invoke":
                 op["sched"] = {"j": 1, "policy": "manifest", "seed": 0, "exec_at": "finish"}
-                # faults that need a multi-file writer are out of scope of the outside devices
+                # kill_at_op needs the in-process hook; the outside devices cannot place it
                 if op.get("faults"):
                     for f in op["faults"]:
-                        f["rules"] = f.get("rules")
+                        if f["kind"] == "kill_at_op":
+                            f["kind"] = "fail_before"
         cases.append(c)
     # variable-font histories: UFO *directories* are ninja outputs; the outside fault devices cannot tear a
     # directory, so these keep only fail_before / fail_after step faults
